@@ -14,21 +14,21 @@ _COMMON_ASSUMPTIONS = [
 ]
 
 BUDGETS = {
-    "C01": {"quick": {"procs": 32, "runs": 60}, "thorough": {"procs": 256, "runs": 1500}},
+    "C01": {"quick": {"procs": 32, "runs": 200}, "thorough": {"procs": 256, "runs": 1500}},
     "C02": {"quick": {"procs": 32, "runs": 20}, "thorough": {"procs": 256, "runs": 250}},
-    "C03": {"quick": {"procs": 32, "runs": 80}, "thorough": {"procs": 256, "runs": 480}},
-    "C04": {"quick": {"procs": 32, "runs": 200}, "thorough": {"procs": 256, "runs": 2500}},
-    "C06": {"quick": {"procs": 32, "runs": 20}, "thorough": {"procs": 192, "runs": 240}},
+    "C03": {"quick": {"procs": 32, "runs": 250}, "thorough": {"procs": 256, "runs": 480}},
+    "C04": {"quick": {"procs": 32, "runs": 800}, "thorough": {"procs": 256, "runs": 2500}},
+    "C06": {"quick": {"procs": 32, "runs": 40}, "thorough": {"procs": 192, "runs": 240}},
     "C07": {"quick": {"procs": 32, "runs": 25, "common": 8}, "thorough": {"procs": 192, "runs": 150, "common": 12}},
     "C09": {"quick": {"procs": 32, "runs": 6}, "thorough": {"procs": 256, "runs": 15}},
-    "C10": {"quick": {"procs": 32, "runs": 30}, "thorough": {"procs": 192, "runs": 250}},
+    "C10": {"quick": {"procs": 32, "runs": 80}, "thorough": {"procs": 192, "runs": 250}},
     "C11": {"quick": {"procs": 32, "runs": 40}, "thorough": {"procs": 192, "runs": 100}},
-    "C12": {"quick": {"procs": 32, "runs": 80}, "thorough": {"procs": 256, "runs": 1500}},
-    "C13": {"quick": {"procs": 32, "runs": 60}, "thorough": {"procs": 192, "runs": 2500}},
-    "C14": {"quick": {"procs": 32, "runs": 60}, "thorough": {"procs": 256, "runs": 2000}},
-    "C15": {"quick": {"procs": 32, "runs": 80}, "thorough": {"procs": 256, "runs": 2000}},
-    "C16": {"quick": {"procs": 32, "runs": 40}, "thorough": {"procs": 256, "runs": 360}},
-    "C17": {"quick": {"procs": 32, "runs": 30}, "thorough": {"procs": 192, "runs": 600}},
+    "C12": {"quick": {"procs": 32, "runs": 300}, "thorough": {"procs": 256, "runs": 1500}},
+    "C13": {"quick": {"procs": 32, "runs": 250}, "thorough": {"procs": 192, "runs": 2500}},
+    "C14": {"quick": {"procs": 32, "runs": 250}, "thorough": {"procs": 256, "runs": 2000}},
+    "C15": {"quick": {"procs": 32, "runs": 300}, "thorough": {"procs": 256, "runs": 2000}},
+    "C16": {"quick": {"procs": 32, "runs": 120}, "thorough": {"procs": 256, "runs": 360}},
+    "C17": {"quick": {"procs": 32, "runs": 100}, "thorough": {"procs": 192, "runs": 600}},
 }
 
 
